@@ -357,6 +357,102 @@ def _host_iso(a, b):
     return GraphMatcher(a, b, node_match=nm, edge_match=lambda x, y: x.get("order") == y.get("order")).is_isomorphic()
 
 
+# ---- applications in a FRESH interpreter, one after the other (shared caches, both orders) ----------------------
+
+def _seq_main():
+    """entry point of the helper process: JSON spec on stdin -> JSON answers on stdout"""
+    import json
+    import sys
+    K.quiet()
+    spec = json.load(sys.stdin)
+    out = []
+    for v in spec["apps"]:
+        row = {}
+        for st in spec["strategies"]:
+            try:
+                rec = K.run_reactor(_vcase(spec, v, st), want_smarts=True)
+                row[st] = None if rec.its_err is not None else sorted(_std_set(rec.smarts)[0])
+            except Exception as e:
+                row[st] = ["EXC " + type(e).__name__]
+        out.append(row)
+    json.dump(out, sys.stdout)
+
+
+def _fresh_sequence(case, apps, strategies):
+    import json
+    import subprocess
+    import sys
+    spec = dict(tpl=dict(core=bool(case["tpl"].get("core", True))), invert=bool(case.get("invert", False)),
+                mode=case.get("mode", "E"), apps=apps, strategies=strategies)
+    r = subprocess.run([sys.executable, "-c", "from harness.props import C05; C05._seq_main()"], input=json.dumps(spec),
+                       capture_output=True, text=True, timeout=300)
+    if r.returncode != 0:
+        raise RuntimeError("helper process failed: " + r.stderr[-300:])
+    return json.loads(r.stdout)
+
+
+def _seq_sampled(case):
+    """which cases get the fresh-interpreter sequences (two helper processes each, ~1 s of start-up each)"""
+    import hashlib
+    if case.get("seq"):
+        return True
+    return int(hashlib.md5(case.get("name", "").encode()).hexdigest(), 16) % 8 == 0
+
+
+def _seq_numberings(case):
+    """the base numbering, the case's own template variants, and a handful of further permutations of the map numbers
+    (transpositions and random ones, PRNG seeded by the case name): cache-key collisions between numberings of one
+    rule only show for SOME permutations"""
+    import hashlib
+    import random
+    base = case["variants"][0]
+    rs = [base["rsmi"]] + [v["rsmi"] for v in case["variants"][1:] if v["v"].startswith("tpl")]
+    rng = random.Random(int(hashlib.md5(("seq:" + case.get("name", "")).encode()).hexdigest(), 16) % (1 << 32))
+    nums = Gn.map_numbers(base["rsmi"])
+    import re
+    for _ in range(4):
+        if len(nums) >= 2:
+            a, b = rng.sample(nums, 2)
+            sig = {a: b, b: a}
+            rs.append(re.sub(r":(\d+)\]", lambda mo: ":%d]" % sig.get(int(mo.group(1)), int(mo.group(1))), base["rsmi"]))
+    for _ in range(2):
+        r = Gn.permute_maps(base["rsmi"], rng, "random")
+        if r:
+            rs.append(r[0])
+    out = []
+    for r in rs:
+        if r not in out:
+            out.append(r)
+    return out
+
+
+def _sequence_failures(case, obs, fail):
+    """the template under several numberings, applied one after the other to the base substrate in ONE fresh interpreter,
+    in both orders (first application = fresh caches; later ones share whatever the earlier ones left behind): every
+    application must give the base writing's set of reactions, per strategy"""
+    if not _seq_sampled(case):
+        return
+    rs = _seq_numberings(case)
+    if len(rs) < 2:
+        return
+    strategies = case["strategies"]
+    sub = case["variants"][0]["sub"]
+    apps = [dict(sub=sub, rsmi=r) for r in rs]
+    fwd = _fresh_sequence(case, apps + apps[:1], strategies)
+    rev = _fresh_sequence(case, apps[::-1] + apps[-1:], strategies)
+    for st in strategies:
+        here = obs[(0, st)]
+        want = None if here["err"] else sorted(here["std"])
+        for label, seq, answers in (("forward", apps + apps[:1], fwd), ("reverse", apps[::-1] + apps[-1:], rev)):
+            for k, (a, got) in enumerate(zip(seq, answers)):
+                if got[st] != want:
+                    fail("invariant-sequence", "strategy %s, substrate %s: application %d of the %s sequence (template numbering %s) gives %s reactions, "
+                         "the base numbering alone gives %s; sequence applied in one fresh interpreter: %r"
+                         % (st, sub, k + 1, label, a["rsmi"], None if got[st] is None else len(got[st]), None if want is None else len(want),
+                            [x["rsmi"] for x in seq]))
+                    return
+
+
 def oracle(case):
     pre = case.get("pre")
     if pre is not None and "error" in pre:
@@ -432,6 +528,11 @@ def oracle(case):
                 fails.extend(_repeat_same_template(case, base, st, obs[(0, st)]["std"], base_key))
     except Exception as e:
         fail("repeat", "repeating the call raised %s: %s" % (type(e).__name__, str(e)[:100]))
+    if not fails:
+        try:
+            _sequence_failures(case, obs, fail)
+        except Exception as e:
+            fail("invariant-sequence", "the fresh-interpreter sequence could not be run: %s: %s" % (type(e).__name__, str(e)[:200]))
     return fails[:4]
 
 
@@ -512,6 +613,10 @@ def distribution(cases, obss):
 
 # ------------------------------------------------------------------ generators
 
+SEQ_RULES = ("amine-double-abstraction", "suzuki-bare", "metathesis-bare", "tishchenko", "halogen-exchange-bare", "ring-symmetric",
+             "single-symmetric", "diol-mono-oxidation")
+
+
 def _mk_case(pair, rng, k_sub, k_tpl, cap=12.0):
     rsmi, sub = pair["tpl"]["rsmi"], pair["sub"]
     big_tpl = not pair["tpl"].get("core", True) and len(Gn.map_numbers(rsmi)) > 16
@@ -530,6 +635,8 @@ def _mk_case(pair, rng, k_sub, k_tpl, cap=12.0):
     c["variants"] = vs
     c["strategies"] = ["all", "comp", "bt"]
     c["cap"] = cap
+    if pair.get("kind") == "hand" and any(k in pair.get("name", "") for k in SEQ_RULES) and pair["sub"] == pair.get("first_sub"):
+        c["seq"] = True
     return c
 
 
